@@ -41,7 +41,20 @@ SQL_QUERY_KINDS = (11, 12, 13, 14, 17, 18, 19, 20)
 DERR = ["DNil", None, "DCtxCanceled", "DCtxDeadline", "DBreakerUnavailable", "DRedisNil", "DWrappedRedisNil",
         "DSqlNoRows", "DSqlTxDone", "DSqlAcceptable", "DOther", "DPanic", "DWrappedCanceled", None, "DSqlConnErr",
         "DSqlScanFail", "DSqlScanDeadline", "DWrappedDeadline", "DWrappedBreakerUnavailable", "DWrappedSqlNoRows",
-        "DWrappedSqlTxDone", "DStallTimeout", "DStallCancel"]
+        "DWrappedSqlTxDone", "DStallTimeout", "DStallCancel", "DShaped"]
+# error shapes (class 23, code = 10*shape + sentinel): every sentinel of a site's table wrapped twice, inside errors.Join
+# (first / last), inside a multi-%w error, matched through a custom Is method
+SHAPES = ["ShWrap2", "ShJoinFirst", "ShJoinLast", "ShMultiW", "ShCustomIs"]
+SENTINELS = ["BCanceled", "BDeadline", "BBreakerUnavailable", "BRedisNil", "BSqlNoRows", "BSqlTxDone"]
+SHAPED_BASES = {"grpcc": (0, 1, 2), "grpcs": (0, 1, 2), "redis": (0, 1, 2, 3), "sql": (0, 1, 2, 4, 5)}
+
+
+def shaped_codes(w):
+    return [10 * sh + b for b in SHAPED_BASES[w] for sh in range(len(SHAPES))]
+
+
+def wcodes(w, cls):
+    return list(range(1, 17)) if cls == 1 else shaped_codes(w) if cls == 23 else [0]
 SQL_CUSTOM = (10, 11, 12, 21, 22, 31, 32)    # 10*i + n: accepted iff 1 <= i <= n
 # the context of a wrapper call over its life (third field of a wrapper call): live / cancelled before the call /
 # live on entry and cancelled while the downstream runs / live on entry and past its deadline when the downstream
@@ -66,6 +79,7 @@ def wmodes(k, rej, cls):
 def sql_classes(k):
     """(class, code) pairs a sqlx wrapper kind understands"""
     cl = [(c, 0) for c in (0, 2, 3, 4, 7, 8, 9, 10, 12, 17, 18, 19, 20)] + [(13, x) for x in SQL_CUSTOM]
+    cl += [(23, x) for x in shaped_codes("sql")]
     if k != 8:
         cl.append((14, 0))
     if k in SQL_QUERY_KINDS:
@@ -73,9 +87,9 @@ def sql_classes(k):
     return cl
 # wrapper executors: case["w"] -> (go package, overlay test file, downstream classes it understands)
 WPKG = {
-    "grpcc": ("zrpc/internal/clientinterceptors", "grpc_client_verif_test.go", [0], [0, 1, 2, 3, 4, 10, 11, 12, 17, 18]),
-    "grpcs": ("zrpc/internal/serverinterceptors", "grpc_server_verif_test.go", [1, 2, 22, 22], [0, 1, 2, 3, 4, 10, 11, 12, 17, 18]),
-    "redis": ("core/stores/redis", "redis_verif_test.go", [3, 4, 5, 6], [0, 2, 3, 4, 5, 6, 10, 11, 12, 17, 18]),
+    "grpcc": ("zrpc/internal/clientinterceptors", "grpc_client_verif_test.go", [0], [0, 1, 2, 3, 4, 10, 11, 12, 17, 18, 23]),
+    "grpcs": ("zrpc/internal/serverinterceptors", "grpc_server_verif_test.go", [1, 2, 22, 22], [0, 1, 2, 3, 4, 10, 11, 12, 17, 18, 23]),
+    "redis": ("core/stores/redis", "redis_verif_test.go", [3, 4, 5, 6], [0, 2, 3, 4, 5, 6, 10, 11, 12, 17, 18, 23]),
     "sql": ("core/stores/sqlx", "sqlx_verif_test.go", SQL_KINDS, [0, 2, 3, 4, 7, 8, 9, 10, 12]),
     "rest": ("rest/handler", "rest_verif_test.go", [], []),
 }
@@ -881,7 +895,7 @@ class C01(Property):
             if k == 22 and rng.random() < 0.3:
                 cls = rng.choice([21, 22])      # still running when the timeout fires / the client cancels
             rej = rng.choice([0, 0, 1])
-            calls.append([k, rej, self._wmode(rng, k, rej, cls), cls, rng.randint(1, 16) if cls == 1 else 0])
+            calls.append([k, rej, self._wmode(rng, k, rej, cls), cls, rng.choice(wcodes(w, cls))])
         return {"w": w, "wcalls": calls}
 
     @staticmethod
@@ -900,9 +914,11 @@ class C01(Property):
             for k in sorted(set(kinds)):
                 cl = [0, 5, 10] if k == 6 else classes + ([21, 22] if k == 22 else [])
                 for cls in cl:
-                    for code in (range(1, 17) if cls == 1 else [0]):
+                    for code in wcodes(w, cls):
                         for rej in (0, 1):
                             for cd in wmodes(k, rej, cls):
+                                if cls == 23 and (rej or cd not in (0, 3)):
+                                    continue
                                 if k == 6 and cd == 4 and cls != 0:
                                     continue
                                 calls.append([k, rej, cd, cls, code])
@@ -1072,6 +1088,8 @@ class C01(Property):
     def _derr(self, cls, code):
         if cls == 13:
             return "(DSqlCustom %d %d)" % (code // 10, code % 10)
+        if cls == 23:
+            return "(DShaped %s %s)" % (SHAPES[code // 10], SENTINELS[code % 10])
         return "(DStatus %s)" % cz(code) if cls == 1 else DERR[cls]
 
     def _seen(self, kind, code):
